@@ -41,7 +41,7 @@ Section Annot.
 
   (* yaml.ClearEmptyAnnotations *)
   Definition clear_empty_annotations (n : node) : res node :=
-    do r <- walk nonstr None [PKey "metadata"]
+    do r <- walk None [PKey "metadata"]
               (fun m => do m' <- clear_field_if_empty "annotations" m; Ok (m', tt)) n;
     clear_field_if_empty "metadata" (fst r).
 
@@ -56,7 +56,7 @@ Section Annot.
 
   (* yaml.ClearAnnotation(k) *)
   Definition clear_annotation (k : string) (n : node) : res node :=
-    do r <- clear_at nonstr [PKey "metadata"; PKey "annotations"] k n; Ok (fst r).
+    do r <- clear_at [PKey "metadata"; PKey "annotations"] k n; Ok (fst r).
 
   (* decimal text of an index *)
   Definition digit_char (d : N) : ascii := ascii_of_N (48 + d).
